@@ -203,7 +203,7 @@ func (c *Ctx) Finish() {
 	}
 	c.mu.Unlock()
 
-	if c.Replay == "" {
+	if c.Replay == "" && !c.Selftest {
 		_ = os.MkdirAll(filepath.Join(VerifDir, "evidence"), 0o755)
 		b, _ := json.MarshalIndent(ev, "", " ")
 		if err := os.WriteFile(filepath.Join(VerifDir, "evidence", c.Property+".json"), append(b, '\n'), 0o644); err != nil {
